@@ -50,6 +50,13 @@ def _case(draw):
             prog["comps"].append(["->", ["==", ["f", "line_number", [], []], ["t", draw(st.integers(1, nrec))]], ["f", "stop", [], []]])
         elif ending == "fail":
             prog["comps"].append(["->", ["==", ["f", "line_number", [], []], ["t", draw(st.integers(1, nrec))]], ["f", "fail", [], []]])
+        named = draw(st.sampled_from(["no", "no", "also", "only"]))
+        if named != "no":
+            # print("...", "audit"): a named printout stream; 'only' = the member prints to no other stream
+            if named == "only":
+                prog["comps"] = [c for c in prog["comps"] if not (c[0] == "f" and c[1] == "print")] or [["f", "yes", [], []]]
+            prog["comps"].insert(draw(st.integers(0, len(prog["comps"]))),
+                                 ["f", "print", [], [["pt", [["text", "audit "], ["ref", "csvpath", "line_number"]]], ["t", "audit"]]])
         if draw(st.integers(0, 3)) == 2:
             # a component that errors (collected, not raised) on the lines whose 'e' cell is 'x'
             prog["comps"].insert(draw(st.integers(0, len(prog["comps"]))), ["=", "zz", [], None, ["f", "add", [], [["h", "e"], ["t", 1]]]])
@@ -192,10 +199,20 @@ def run_case(case, sb):
                 problems.append({"member": name, "printouts.txt": "missing", "in_memory": o["printouts"]})
             else:
                 got = parse_printouts(pp).get("default", [])
-                if got != o["printouts"] or o["printouts"] != r["printouts"]:
-                    problems.append({"member": name, "printouts.txt": got, "in_memory": o["printouts"], "standalone": r["printouts"]})
+                alone_default = (r.get("printouts_named") or {}).get("default", [])
+                if got != o["printouts"] or o["printouts"] != alone_default:
+                    problems.append({"member": name, "printouts.txt": got, "in_memory": o["printouts"], "standalone": alone_default})
         elif os.path.isfile(pp) and parse_printouts(pp).get("default"):
             problems.append({"member": name, "printouts.txt": "present although nothing was printed"})
+        if not r["errors"]:
+            # every stream (default and named): standalone printer == Result in memory == sections of printouts.txt
+            mem_named = {k: v for k, v in (o.get("printouts_named") or {}).items() if v}
+            alone_named = {k: v for k, v in (r.get("printouts_named") or {}).items() if v}
+            disk_named = {k: v for k, v in (parse_printouts(pp) if os.path.isfile(pp) else {}).items() if v}
+            if not (mem_named == alone_named == disk_named):
+                problems.append({"member": name, "printout_streams": {"standalone": alone_named, "in_memory": mem_named, "printouts.txt": disk_named}})
+            if len(mem_named) > 1 or (mem_named and "default" not in mem_named):
+                labels.append("named-printout-stream")
         dp = os.path.join(mdir, "data.csv")
         if collecting:
             got = read_csv(dp) if os.path.isfile(dp) else []
